@@ -25,7 +25,7 @@ var (
 )
 
 // maxPasses is the number of times a profile is scanned for directives.
-const maxPasses = 3
+const maxPasses = 10
 
 // Directive main interface
 type Directive interface {
@@ -169,6 +169,9 @@ func Run(file *paths.Path, profile string) (string, error) {
 				return "", fmt.Errorf("%s %s: %w", drtv.Name(), opt.File, err)
 			}
 		}
+	}
+	if regDirective.MatchString(profile) {
+		return "", fmt.Errorf("directives left in %s after %d passes: too many nested stacks", file, maxPasses)
 	}
 	return profile, nil
 }
